@@ -312,6 +312,20 @@ def tables(ctx, fx):
                     run_case(ctx, fx, rs, cmd, verbose, qual)
                 except core.Violation as v:
                     ctx.record_violation(v.signature, v.spec, v.message)
+    # a :qualname filter that selects ONLY stale rows (the module also has valid ones): nothing decodable for that query
+    S_ = fx.stale_rows()
+    for j, kind in enumerate(kinds):
+        q_ = S_[kind][1]
+        if q_ in ("f", "g", "K.m", "gen") or S_[kind][0] != fx.pkg + ".mod":
+            continue
+        for cmd, verbose in (("diff", j % 2 == 0), ("stub", j % 2 == 1)):
+            idx += 1
+            if idx % ctx.nshards != ctx.shard:
+                continue
+            try:
+                run_case(ctx, fx, [["v", 0, 0], ["s", kind, 1], ["v", 3, 1], ["s", kind, 2]], cmd, verbose, q_)
+            except core.Violation as v:
+                ctx.record_violation(v.signature, v.spec, v.message)
     if ctx.tier == "thorough" or True:
         for a, b in itertools.combinations(kinds, 2):
             idx += 1
